@@ -496,6 +496,34 @@ class SymInterp(Interp):
             if recv is None or (isinstance(recv, Variant) and recv.last == "None"):
                 return None
             return self.call_closure(args[0], [recv])
+        if isinstance(recv, dict):
+            if m == "get":
+                return recv.get(args[0])
+            if m == "insert":
+                old = recv.get(args[0])
+                recv[args[0]] = args[1]
+                return old
+            if m == "contains_key":
+                return args[0] in recv
+            if m == "len":
+                return len(recv)
+        if isinstance(recv, set):
+            if m == "contains":
+                return args[0] in recv
+            if m == "insert":
+                new = args[0] not in recv
+                recv.add(args[0])
+                return new
+            if m == "len":
+                return len(recv)
+        if m == "map_or_else" and len(args) == 2:
+            if recv is None or (isinstance(recv, Variant) and recv.last == "None"):
+                return self.call_closure(args[0], [])
+            return self.call_closure(args[1], [recv])
+        if m == "map_or" and len(args) == 2:
+            if recv is None or (isinstance(recv, Variant) and recv.last == "None"):
+                return args[0]
+            return self.call_closure(args[1], [recv])
         if m in ("checked_sub", "saturating_sub") and len(args) == 1 and isinstance(recv, int) and isinstance(args[0], int):
             d = recv - args[0]
             if m == "checked_sub":
